@@ -293,7 +293,12 @@ def run_nd(case):
     arr = _nd_build(ns, case["contents"], case["mask"])
     info = {"secret_reads": 0, "partial": 0, "oob": 0, "write_then_other_read": False, "last_write": None}
     for step, (kind, idx, sec, wval, wsec) in enumerate(case["ops"]):
-        api_idx = tuple(ns.rt.PrivVal(i) if s_ else i for i, s_ in zip(idx, sec))
+        if step in case.get("share", ()):
+            # ONE secret object used for several dimensions (a diagonal access a[i, i])
+            objs = {}
+            api_idx = tuple((objs[i] if i in objs else objs.setdefault(i, ns.rt.PrivVal(i))) if s_ else i for i, s_ in zip(idx, sec))
+        else:
+            api_idx = tuple(ns.rt.PrivVal(i) if s_ else i for i, s_ in zip(idx, sec))
         key = api_idx[0] if len(api_idx) == 1 and step % 2 else api_idx
         ok = all((0 <= i < n) if s_ else (-n <= i < n) for i, s_, n in zip(idx, sec, shape))
         what = "%s at %r (secret positions %r) of an array of shape %r" % ("read" if kind == "r" else "write", idx, sec, shape)
@@ -356,17 +361,25 @@ def draw_nd(draw):
     allsec = draw(st.sampled_from([None, None, True, False]))
     mask = gen(shape, st.booleans() if allsec is None else st.just(allsec))
     ops = []
+    share = []
     for _ in range(draw(st.integers(1, 4))):
         kind = draw(st.sampled_from(["r", "r", "w"]))
         nidx = draw(st.integers(1, depth))
         idx, sec = [], []
-        for d in range(nidx):
+        if draw(st.integers(0, 4)) == 0:
+            # diagonal access through one secret index object: in range for some dimensions and not for others when the
+            # dimensions differ
+            nidx = max(nidx, 2)
+            v = draw(st.integers(0, max(shape[:nidx])))
+            idx, sec = [v] * nidx, [True] * nidx
+            share.append(len(ops))
+        for d in range(nidx - len(idx)):
             n = shape[d]
             idx.append(draw(st.one_of(*([st.integers(0, n - 1)] * 12 + [st.sampled_from([-1, n, n + 1, -n, -n - 1])]))))
             sec.append(draw(st.sampled_from([True, True, False])))
         ops.append([kind, idx, sec, draw(st.integers(-5, 9)), draw(st.booleans())])
     return {"part": "nd", "p": draw(st.sampled_from(["bn128", "curve25519", 257])), "b": draw(st.sampled_from([4, 8, 16])),
-            "shape": shape, "contents": contents, "mask": mask, "ops": ops}
+            "shape": shape, "contents": contents, "mask": mask, "ops": ops, "share": share}
 
 
 def nd_case(case, draw=None):
@@ -378,7 +391,10 @@ def nd_case(case, draw=None):
         alt = {}
         for step, (kind, idx, sec, _, _) in enumerate(case["ops"]):
             if any(sec) and all((0 <= i < n) if s_ else (-n <= i < n) for i, s_, n in zip(idx, sec, case["shape"])):
-                alt[str(step)] = [draw(st.integers(0, n - 1)) if s_ else i for i, s_, n in zip(idx, sec, case["shape"])]
+                if step in case.get("share", ()):
+                    alt[str(step)] = [draw(st.integers(0, min(case["shape"][:len(idx)]) - 1))] * len(idx)     # still one object
+                else:
+                    alt[str(step)] = [draw(st.integers(0, n - 1)) if s_ else i for i, s_, n in zip(idx, sec, case["shape"])]
         case["alt"] = alt
     if alt:
         c2 = copy.deepcopy(case)
